@@ -182,6 +182,37 @@ func runC16(c *an.Ctx) {
 		}
 	}
 	c.MinCount("R2", "error-returning calls in the compile call graph", nCalls, 80)
+	// scanners that cut a piece off the front of the text hand back the unparsed remainder; dropping it means that
+	// whatever followed (a duplicated quote, a second quoted string, trailing actions) is silently ignored
+	nCut := 0
+	for _, fn := range c.P.ModFuncs {
+		if relPkg(fn) != "internal/seclang" {
+			continue
+		}
+		an.Instrs(fn, func(in ssa.Instruction) {
+			call, ok := in.(*ssa.Call)
+			if !ok || call.Call.StaticCallee() == nil || relPkg(call.Call.StaticCallee()) != "internal/seclang" {
+				return
+			}
+			res := call.Call.StaticCallee().Signature.Results()
+			if res.Len() < 3 || !isStringType(res.At(0).Type()) || !isStringType(res.At(1).Type()) || res.At(res.Len()-1).Type().String() != "error" {
+				return
+			}
+			if res.Len() != 3 {
+				return // (a, b, c, err) splitters return all parts, not a remainder
+			}
+			nCut++
+			used := false
+			for _, r := range *call.Referrers() {
+				if ex, ok := r.(*ssa.Extract); ok && ex.Index == 1 && len(*ex.Referrers()) > 0 {
+					used = true
+				}
+			}
+			c.Check(used, "R2", fmt.Sprintf("remainder returned by %s is looked at in %s", call.Call.StaticCallee().Name(), an.RelName(fn)), in.Pos(), "the rest of the text is parsed or checked",
+				"the text left over after "+call.Call.StaticCallee().Name()+" cut its piece is discarded: anything after the closing quote (a second quoted string, a stray quote, more actions) is dropped without an error instead of being rejected")
+		})
+	}
+	c.MinCount("R2", "calls of cutting scanners", nCut, 1)
 	// unclosed quote in an action list
 	if pa := c.Fn("R2", "internal/seclang.parseActions"); pa != nil {
 		errIdx := an.ErrorIndex(pa.Signature)
